@@ -68,6 +68,8 @@ pub struct Mon {
     pub sd_committed: Vec<SdEvent>,
     /// number of opcode-0xff executions that did not complete
     pub sd_failed: u64,
+    /// every log appended to the journal, in order (also those of frames that later revert)
+    pub logs_seen: Vec<revm::primitives::Log>,
     /// C10: snapshot the world when a static region is entered and compare when it is left
     pub check_static: bool,
     pub static_snaps: Vec<(usize, StateProj)>,
@@ -192,7 +194,12 @@ pub fn monitor_register<EXT: HasMon, DB: Database>(h: &mut EvmHandler<'_, EXT, D
         } else {
             None
         };
+        let logs_before = host.evm.journaled_state.logs.len();
         prev(interp, host);
+        if host.evm.journaled_state.logs.len() > logs_before {
+            let new: Vec<_> = host.evm.journaled_state.logs[logs_before..].to_vec();
+            host.external.mon().logs_seen.extend(new);
+        }
         if let Some((a, bal, ben)) = sd_pre {
             if interp.instruction_result == InstructionResult::SelfDestruct {
                 let after = host.evm.journaled_state.state.get(&a).map(|x| x.info.balance).unwrap_or_default();
